@@ -40,6 +40,31 @@ fn c16_display() {
     }
     note(format!("literal pieces {:?}, {} holes", pieces, holes.len()));
     cover("formatted");
+    if holes.is_empty() {
+        // the implementation narrowed the amount to native integers and printed those: the text is concrete on
+        // this path, so it is judged by its meaning (under the path condition that fixed the native value)
+        cover("formatted_from_native_integers");
+        let t = &pieces[0];
+        let parts: Vec<&str> = t.split('.').collect();
+        let well_formed = parts.len() == 2 && !parts[0].is_empty() && parts[0].bytes().all(|b| b.is_ascii_digit()) && parts[1].len() == 18 && parts[1].bytes().all(|b| b.is_ascii_digit())
+            && (parts[0] == "0" || !parts[0].starts_with('0'));
+        check_bool("display:text_is_integer_dot_18_digit_fraction", well_formed);
+        if well_formed {
+            use std::str::FromStr;
+            let u = ruint::aliases::U256::from_str(parts[0]);
+            let f = ruint::aliases::U256::from_str(parts[1]).unwrap();
+            let ten18c = ruint::aliases::U256::from(10u8).pow(ruint::aliases::U256::from(18u8));
+            match u.ok().and_then(|u| u.checked_mul(ten18c)).and_then(|x| x.checked_add(f)) {
+                Some(v) => {
+                    check("display:value_is_exact", SymU::<256>::konst_u256(v).seq(a).0);
+                }
+                None => {
+                    check_bool("display:value_is_exact", false);
+                }
+            }
+        }
+        return;
+    }
     // shape: <integer> "." <fraction>
     check_bool("display:shape_is_integer_dot_fraction", holes.len() == 2 && pieces == vec!["".to_string(), ".".to_string(), "".to_string()]);
     if holes.len() != 2 {
